@@ -17,8 +17,9 @@ CFG = {
     "node": {"ips": ["10.0.0.1"], "tcp_port": 3868, "cer_timeout": 2, "cea_timeout": 2, "idle_timeout": 3, "dwa_timeout": 2, "wakeup": 1,
              "retransmit_queue_size": 4},
     "peers": [{"name": "peer1.example.org"},
-              {"name": "peer2.example.org", "ips": ["10.1.0.2"], "persistent": True, "reconnect_wait": 1, "always_reconnect": True}],
-    "apps": [{"id": env.APP_ACCT, "acct": True, "peers": [0, 1], "behaviour": "answer"}],
+              {"name": "peer2.example.org", "ips": ["10.1.0.2"], "persistent": True, "reconnect_wait": 1, "always_reconnect": True},
+              {"name": "peer3.example.org"}],      # configured, never has a standing connection: its connections are its only ones
+    "apps": [{"id": env.APP_ACCT, "acct": True, "peers": [0, 1, 2], "behaviour": "answer"}],
 }
 
 
@@ -107,6 +108,38 @@ def cyc_conn_no_common(sc, i):
     sc.apply(("eof", c))
 
 
+def cyc_idle_peer_closes(sc, i):
+    c = _fresh_accept(sc)
+    sc.apply(("m", c, "cer_p2"))
+    sc.apply(("m", c, "req"))
+    sc.apply(("eof", c))
+
+
+def cyc_idle_peer_dpr(sc, i):
+    c = _fresh_accept(sc)
+    sc.apply(("m", c, "cer_p2"))
+    sc.apply(("m", c, "dpr"))
+    sc.apply(("eof", c))
+
+
+def cyc_idle_peer_no_common(sc, i):
+    c = _fresh_accept(sc)
+    sc.apply(("m", c, "cer_nocommon@2"))
+    sc.apply(("eof", c))
+
+
+def cyc_idle_peer_reset(sc, i):
+    c = _fresh_accept(sc)
+    sc.apply(("m", c, "cer_p2"))
+    sc.apply(("rst", c))
+
+
+def cyc_idle_peer_garbage(sc, i):
+    c = _fresh_accept(sc)
+    sc.apply(("m", c, "cer_v6p2"))
+    sc.apply(("m", c, "badlen"))
+
+
 def cyc_conn_garbage(sc, i):
     c = _fresh_accept(sc)
     sc.apply(("m", c, "cer_p0"))
@@ -184,6 +217,9 @@ CYCLES = collections.OrderedDict([
     ("dial-refused", cyc_dial_refused), ("dial-failed-asynchronously", cyc_dial_async_fail),
     ("dial-CEA-rejected", cyc_dial_cea_rejected), ("dial-established-then-lost", cyc_dial_ok_then_lost),
     ("retransmitted-duplicate-rejected", cyc_retransmitted_duplicate), ("dial-socket-creation-fails", cyc_dial_no_descriptor),
+    ("only-connection-of-a-peer-closed-by-peer", cyc_idle_peer_closes), ("only-connection-of-a-peer-after-DPR", cyc_idle_peer_dpr),
+    ("only-connection-of-a-peer-no-common-application", cyc_idle_peer_no_common), ("only-connection-of-a-peer-reset", cyc_idle_peer_reset),
+    ("only-connection-of-a-peer-garbage", cyc_idle_peer_garbage),
 ])
 
 SKIP_ATTRS = {"statistics", "counters", "statistics_history", "logger", "connection_logger", "stats_logger", "msg_dump", "avp_def",
@@ -318,7 +354,7 @@ def run(tier):
     rep.sample({"example_measure_keys": sorted(run_sequence(("inbound-request-answered",), 1)[0])[:25]})
     rep.cov.update({"states": len(jobs) * 2, "transitions": total_cycles, "traces_validated_against_impl": len(jobs) * 2,
                     "distinct_measures": len(distinct), "repetitions": [lo, hi],
-                    "explanation": "each of 20 complete cycles repeated N_lo and N_hi times on a fresh node (5/40 quick, 10/100 and 10/1000 thorough) and every ordered "
+                    "explanation": "each of 25 complete cycles repeated N_lo and N_hi times on a fresh node (5/40 quick, 10/100 and 10/1000 thorough) and every ordered "
                                    "pair of cycles repeated 2 and 6 times (thorough: also a VERIF_SEED-rotated third of all ordered triples, 2 and 4 times); the measure (sizes of all containers "
                                    "structurally reachable from node, peers, connections, applications except statistics and the bounded duplicate window; live "
                                    "threads; unclosed sockets; pipes) must be equal for both repetition counts"})
